@@ -88,6 +88,28 @@ pub fn run(rep: &'static Report) {
         prod_case(rep, &sub, &file, &p, &s.pk, "trunc", t);
         n.fetch_add(1, Ordering::Relaxed);
     });
+    // E2 = exactly two full chunks: every extension must be rejected (the probe for trailing data sees a full buffer)
+    {
+        let ids = idents(rep.seed);
+        let p2 = plaintext(rep.seed ^ 0x3f, 2 * CS);
+        let f2 = r::write_key_file(&ids[0].sk, &ids[2].pk, &derive32(rep.seed, "c03-E2-e"), &derive32(rep.seed, "c03-E2-p"), &p2, &[CS, CS]).unwrap();
+        let (r0, o0) = run_plain(&sub, &f2);
+        rep.eval(1);
+        if !r0.is_ok() || o0 != p2 {
+            rep.violation("prod/full-final-chunk-rejected", json!({"kind":"prod2","ext":"none"}), format!("authentic file with a full-size final chunk: {}", r0.brief()));
+        }
+        let last_rec = f2[f2.len() - (32 + CS)..].to_vec();
+        let exts: Vec<(&str, Vec<u8>)> = vec![("one-byte", vec![0]), ("16-bytes", vec![0xaa; 16]), ("duplicated-final-record", last_rec), ("whole-file-again", f2.clone()), ("64KiB-of-zeros", vec![0; CS])];
+        exts.par_iter().for_each(|(name, ext)| {
+            rep.eval(1);
+            let mut x = f2.clone();
+            x.extend_from_slice(ext);
+            let (res, out) = run_plain(&sub, &x);
+            if !matches!(res, Res::Err(..)) {
+                rep.violation("prod/extension-accepted", json!({"kind":"prod2","ext":name}), format!("file of exactly two full chunks extended by {} : {} ({} bytes out)", name, res.brief(), out.len()));
+            }
+        });
+    }
     rep.extra("production_file_edits", json!({"file_len":file.len(),"bit_flips":bytes.len()*8,"truncations":truncs.len(),"complete": rep.tier == Tier::Thorough}));
     // unique graph states are distinct byte strings by construction; minted words likewise
     rep.add_distinct(rep.states.load(Ordering::Relaxed));
@@ -101,6 +123,10 @@ pub fn replay(rep: &'static Report, case: &Value) {
     match case["kind"].as_str().unwrap_or("") {
         "state" => graph::replay_state(rep, Which::C03, case),
         "minted" => crate::minted::replay(rep, Which::C03, case),
+        "prod2" => {
+            println!("  re-running the production-size part");
+            run(rep);
+        }
         "prod" => {
             let (file, p, s, rc) = prod_file(rep.seed);
             let sub = Subject::KeyDec { r: hx(&rc.sk), r_pub: hx(&rc.pk) };
